@@ -87,7 +87,7 @@ W = world.World(imax=6, jmax=5, N=2, h=20.0, dx=1000.0)
 PX, PY, PZ = 2.5, 2.0, 5.0  # on a u-node; v-node not needed (v = -2*tag uniform)
 
 
-def run_layout(nsteps, frames, sizes, rev, scalar, units="seconds"):
+def run_layout(nsteps, frames, sizes, rev, scalar, units="seconds", late=0):
     """Returns (sig, msg) or None."""
     from ladim.ROMS import Forcing, Grid
     from ladim.state import State
@@ -113,7 +113,8 @@ def run_layout(nsteps, frames, sizes, rev, scalar, units="seconds"):
     try:
         grid = Grid(files[0])
         st = State(instance_variables=dict(temp=float) if scalar else None)
-        st.append(X=PX, Y=PY, Z=PZ, **(dict(temp=0.0) if scalar else {}))
+        if late == 0:
+            st.append(X=PX, Y=PY, Z=PZ, **(dict(temp=0.0) if scalar else {}))
         tk = TimeKeeper(start=world.iso(S0), stop=world.iso(S0 + sgn * nsteps * DT), dt=DT, time_reversal=rev)
         force = Forcing(dict(time=tk, grid=grid, state=st), str(d / "f_*.nc"), extra_forcing=["temp"] if scalar else None)
     except BaseException as e:
@@ -122,7 +123,11 @@ def run_layout(nsteps, frames, sizes, rev, scalar, units="seconds"):
     try:
         for n in range(nsteps):
             tk.update()
+            if late and n == late:  # the state was empty so far: the first particle is released only now
+                st.append(X=PX, Y=PY, Z=PZ, **(dict(temp=0.0) if scalar else {}))
             force.update()
+            if n < late:
+                continue
             for frac in FRACS:
                 u, v = force.velocity(st.X, st.Y, st.Z, fractional_step=frac)
                 got_u, got_v = float(u[0]), float(v[0])
@@ -170,12 +175,17 @@ def run_case(case):
         combos = [tuple(case["only"])]
     else:
         combos = [(list(sz), rev, sc) for sz in comps for rev in (False, True) for sc in (False, True)]
-    for sz, rev, sc in combos:
+        if nsteps >= 2:  # the same layouts with an empty state during the first steps (first release at step 1 or 2)
+            combos += [(list(comps[0]), rev, True, late) for rev in (False, True) for late in range(1, min(nsteps, 3))]
+            combos += [(list(comps[-1]), False, False, nsteps - 1)]
+    for combo in combos:
+        sz, rev, sc = combo[:3]
+        late = combo[3] if len(combo) > 3 else 0
         sz = tuple(sz)
         units = "seconds"
         if (len(frames) + nsteps) % 5 == 0 and sc:
             units = "hours" if rev else "days"  # a slice with other CF time units
-        res = run_layout(nsteps, frames, sz, rev, sc, units)
+        res = run_layout(nsteps, frames, sz, rev, sc, units, late)
         n += 1
         handover = any(0 < s < nsteps for s in frames)
         interp = any(s not in frames for s in range(nsteps))
@@ -185,8 +195,8 @@ def run_case(case):
         if res is not None:
             sig = res[0]
             if sum(1 for v in viols if v["sig"] == sig) < 1:
-                viols.append(util.viol(sig, f"Nsteps={nsteps} frames@steps={frames} files={sz} rev={rev} scalar={sc} [{classify(frames, sz, rev, nsteps)}]: {res[1]}",
-                                       dict(nsteps=nsteps, frames=frames, only=[list(sz), rev, sc])))
+                viols.append(util.viol(sig, f"Nsteps={nsteps} frames@steps={frames} files={sz} rev={rev} scalar={sc} first-release-at-step={late} [{classify(frames, sz, rev, nsteps)}]: {res[1]}",
+                                       dict(nsteps=nsteps, frames=frames, only=[list(sz), rev, sc, late])))
     util.cleanup_scratch(keep_root=True)
     return util.result(evals=n, nontrivial=nt, viol=viols, outcomes=[list(o) for o in outcomes], states=n * nsteps, transitions=n * nsteps * 3,
                        sample=dict(nsteps=nsteps, frame_steps=frames, file_compositions=len(comps), example_files=list(comps[len(comps) // 2])))
